@@ -505,6 +505,12 @@ def serial_case(driver, seed, part, i, res):
 def run_shard(desc, tier, seed):
     res = Result()
     simlib.import_all()
+    _drv = desc.get("driver", "tridonic" if desc.get("kind") == "tridonic" else None)
+    if _drv in simlib.DRIVERS and "replay" not in desc:
+        why = simlib.probe_attach(_drv)
+        if why:
+            res.inconclusive.append(why)
+            return res
     if "replay" in desc:
         for w in desc["replay"]["witnesses"]:
             x = w["witness"]
